@@ -86,13 +86,14 @@ class Evaluator(object):
         self.leaf_args = {}
         self.consts = dict(consts or {})       # python names bound to numbers: "pi" -> ("el","pi",()) etc. are given in decl
         self.assume = {}                       # source text of a scalar condition -> its (assumed) truth value: selects branches
+        self.bool_leaves = set()               # input arrays (or leaf calls) that hold booleans
         self.returned = None
 
     # ------------------------------------------------------------------ expressions
     def name_of(self, node):
         if isinstance(node, ast.Name):
             return node.id
-        if isinstance(node, ast.Attribute) and isinstance(node.value, ast.Name) and node.value.id in ("self", "np"):
+        if isinstance(node, ast.Attribute) and isinstance(node.value, ast.Name):
             return "%s.%s" % (node.value.id, node.attr)
         raise Untranslatable("target %s" % ast.unparse(node))
 
@@ -151,9 +152,8 @@ class Evaluator(object):
             return not self.assume[ast.unparse(test.operand)]
         raise Untranslatable("condition %s is not one of the assumed flags" % txt)
 
-    @staticmethod
-    def is_bool(e):
-        return e[0] in ("cmp", "and", "or", "not")
+    def is_bool(self, e):
+        return e[0] in ("cmp", "and", "or", "not") or (e[0] == "el" and e[1] in self.bool_leaves)
 
     def subscript(self, v, sl):
         items = list(sl.elts) if isinstance(sl, ast.Tuple) else [sl]
@@ -288,6 +288,14 @@ class Evaluator(object):
                 self.env[n] = Arr(cur.axes, ("ite", m.e, v.e, cur.e))
                 return
             self.env[self.name_of(tg)] = self.ev(st.value)
+            return
+        if isinstance(st, ast.AugAssign) and isinstance(st.op, (ast.BitAnd, ast.BitOr)):
+            n = self.name_of(st.target)
+            cur = self.env.get(n)
+            v = self.ev(st.value)
+            if cur is None or not (self.is_bool(cur.e) and self.is_bool(v.e)) or bcast(cur, v) != cur.axes:
+                raise Untranslatable("in-place & or | in %s" % ast.unparse(st))
+            self.env[n] = Arr(cur.axes, ("and" if isinstance(st.op, ast.BitAnd) else "or", cur.e, v.e))
             return
         if isinstance(st, ast.AugAssign) and type(st.op) in self.BIN:
             n = self.name_of(st.target)
